@@ -130,6 +130,9 @@ def check_equation(ctx, case):
             if X.has_nonfinite(res):
                 ctx.count("excluded_nonfinite")
                 continue
+            if E.has_huge_constant(res):
+                ctx.count("excluded_huge_constant")
+                continue
             det = {"tree": text, "rule": name, "arrangement": ap.arrangement, "node": E.text_of(n), "index": idx, "result": E.text_of(res)}
             vs = A.variables(root) | A.variables(res)
             assigns = G.assignments(vs, 6)
